@@ -298,6 +298,8 @@ func TestCheck(t *testing.T) {
 		var p ref.Pos
 		if i < len(corpus) {
 			p = corpus[i]
+		} else if q, ok := gen.RawEP(rng); ok && i%6 == 0 {
+			p = q
 		} else {
 			p = gen.AnyPos(rng)
 		}
